@@ -258,8 +258,10 @@ class SchemaGen:
         f = File(pname)
         if rng.random() < cfg.basename_differs:
             f.basename = self.pool.proto() + "_file"
-        if not is_main and rng.random() < cfg.p_subdir:
+        if rng.random() < (cfg.p_subdir if not is_main else cfg.p_subdir / 2):
             f.subdir = rng.choice(["lib", "lib/inner", "sub dir", "a/b/c"])
+        if imports and rng.random() < cfg.p_subdir / 3:
+            f.abs_imports = True
         if rng.random() < cfg.comments:
             f.comment = hostile_comment(rng, f"Proto {pname}.")
         avail: List[Any] = []
